@@ -3,9 +3,9 @@ import common
 from common import Case
 
 TITLE = 'Every deal survives every encoding round trip'
-LEAN_TARGETS = ['BridgeVerif.Props.C14', 'BridgeVerif.Translated.Hands', 'BridgeVerif.Lemmas.RegexHands', 'BridgeVerif.Props.Regex']
-AUDIT_PROPS = ['C14', 'Translated.Hands', 'Lemmas.RegexHands', 'Regex']
-REQUIRED = ['Lemmas.RegexHands.handsRegexFacts', 'Regex.hands_patterns_are_the_translated_constants',
+LEAN_TARGETS = ['BridgeVerif.Props.C14', 'BridgeVerif.Translated.Hands', 'BridgeVerif.Lemmas.RegexHands', 'BridgeVerif.Translated.HandsPbnClosed', 'BridgeVerif.Props.Regex']
+AUDIT_PROPS = ['C14', 'Translated.Hands', 'Lemmas.RegexHands', 'Translated.HandsPbn', 'Translated.HandsPbnClosed', 'Regex']
+REQUIRED = ['Lemmas.RegexHands.handsRegexFacts', 'Translated.HandsPbnClosed.hp_pbn_round_trip_closed', 'Translated.HandsPbnClosed.hp_convert_pbn_closed', 'Regex.hands_patterns_are_the_translated_constants',
             'Translated.Hands.hands_getitem_translated', 'Translated.Hands.hands_to_binary_translated', 'Translated.Hands.hands_convert_binary_translated', 'Translated.Hands.hands_binary_round_trip_translated', 'Translated.Hands.hands_convert_hand_to_pbn_translated_cases', 'Translated.Hands.hands_to_pbn_translated_cases',
             'pbn_round_trip', 'pbn_canonical', 'binary_round_trip', 'np_binary_round_trip', 'json_round_trip',
             'json_cards_ascending', 'random_deal_is_partition']
